@@ -908,6 +908,14 @@ _dispatch_timer_unote_resume(dispatch_timer_source_refs_t dt)
 
 	if (unlikely(was_armed && (!will_arm || dt->du_ident != tidx))) {
 		_dispatch_timer_unote_disarm(dt, dth);
+		if (!will_arm) {
+			// The source may have been resumed since it was found suspended
+			// above, by a thread whose wakeup still saw this timer armed and
+			// so did not ask for it to be rearmed. Look again now that the
+			// disarmed state is visible, or the timer is lost.
+			os_atomic_thread_fence(seq_cst);
+			will_arm = _dispatch_timer_unote_needs_rearm(dt, 0);
+		}
 	}
 	if (will_arm) {
 		if (!was_armed) _dispatch_retain_unote_owner(dt);
